@@ -531,6 +531,94 @@ func c09Timeout(cs c09TimeoutCase) (*fw.Violation, *harness.Server) {
 	return nil, h
 }
 
+// c09Junk: DATA that keeps arriving for a stream the server has reset or refused uses up connection window. The
+// peer is a conforming sender (C14's model: it only sends what its ledger allows); a victim upload opened before must
+// still be able to finish afterwards, i.e. the credit for the discarded DATA has come back.
+type c09JunkCase struct {
+	Offence string `json:"offence"` // malformed | refused | oversized
+	Chunk   int    `json:"chunk"`
+	Pad     int    `json:"pad"`
+}
+
+func c09Junk(cs c09JunkCase) (*fw.Violation, *harness.Server) {
+	h := harness.NewServer(harness.ServerOpts{MaxConcurrentStreams: 2, MaxRequestBodySize: 1 << 20})
+	shape := "junk-data-on-dead-stream " + cs.Offence
+	mk := func(rule, detail string) *fw.Violation {
+		ev := h.EventLog
+		if len(ev) > 10 {
+			ev = append([]string{fmt.Sprintf("…%d earlier events…", len(ev)-10)}, ev[len(ev)-10:]...)
+		}
+		return &fw.Violation{Rule: rule, Shape: shape, Detail: detail + "\n    last events: " + strings.Join(ev, " ; "), Replay: map[string]any{"family": "c09junk", "case": cs}}
+	}
+	s := &sender{h: h, conn: 65535, init: 65535, strm: map[uint32]int64{}}
+	for _, st := range h.Settings {
+		for _, p := range st {
+			if p.ID == peer.SInitialWindowSize {
+				s.init = int64(p.Val)
+			}
+		}
+	}
+	s.absorb()
+	open := func(id uint32, extra ...ref.Field) {
+		fields := harness.ReqFields("POST", "https", "h", fmt.Sprint("/j", id), [2]string{"x-sid", fmt.Sprint(id)})
+		fields = append(fields, extra...)
+		h.SendFrames(peer.Headers(id, staticBlock(fields), peer.HeadersOpt{EndHeaders: true, Pad: -1}))
+		s.strm[id] = s.init
+	}
+	body := []byte(valOfLen(100000))
+	open(1)
+	sent := 0
+	for sent < 70000 {
+		n := min(16384, 70000-sent)
+		if r, d := s.send(1, body[sent:sent+n], false, -1); r != "" {
+			return mk("victim-upload-starved", "before the offence: "+d), h
+		}
+		sent += n
+	}
+	switch cs.Offence {
+	case "malformed":
+		open(3, ref.Field{Name: "X-Upper", Value: "v"})
+	case "refused":
+		open(3)
+		open(5) // over the limit of 2
+	case "oversized":
+		open(3, ref.Field{Name: "content-length", Value: "4000000"}) // above MaxRequestBodySize: refused at HEADERS or at the first DATA
+	}
+	dead := uint32(3)
+	if cs.Offence == "refused" {
+		dead = 5
+	}
+	chunk := []byte(valOfLen(cs.Chunk))
+	junk := 0
+	for i := 0; i < 400; i++ {
+		if r, _ := s.send(dead, chunk, false, cs.Pad); r != "" {
+			break // the sender's own ledger says stop: a conforming peer sends no more
+		}
+		junk += len(chunk)
+	}
+	// the victim's last 30000 bytes
+	for sent < len(body) {
+		n := min(16384, len(body)-sent)
+		if r, d := s.send(1, body[sent:sent+n], sent+n == len(body), -1); r != "" {
+			return mk("victim-upload-starved", fmt.Sprintf("after %d bytes of DATA were discarded on stream %d (%s), the upload on stream 1 cannot go on at byte %d of %d: %s", junk, dead, cs.Offence, sent, len(body), d)), h
+		}
+		sent += n
+	}
+	if len(h.GoAways) > 0 || h.C.Closed() {
+		return mk("connection-torn-down", "DATA in flight on a dead stream ended the connection: "+h.Reaction(0)), h
+	}
+	var got *harness.Call
+	for _, c := range h.Calls {
+		if c.Stream == 1 {
+			got = c
+		}
+	}
+	if got == nil || len(got.Req.Body) != len(body) {
+		return mk("victim-not-dispatched", fmt.Sprintf("the upload on stream 1 was sent in full (%d bytes) but was not handed to the handler intact", len(body))), h
+	}
+	return nil, h
+}
+
 func sortU32(a []uint32) {
 	for i := 1; i < len(a); i++ {
 		for j := i; j > 0 && a[j] < a[j-1]; j-- {
@@ -667,6 +755,33 @@ func runC09(c *fw.Ctx) {
 		}
 	}
 	c.Family("request-timeout")
+	for _, off := range []string{"malformed", "refused", "oversized"} {
+		for _, ch := range []int{16384, 1000} {
+			for _, pad := range []int{-1, 200} {
+				if pad >= 0 && ch+pad+1 > 16384 {
+					continue
+				}
+				if item++; !c.Mine(item) {
+					continue
+				}
+				cs := c09JunkCase{Offence: off, Chunk: ch, Pad: pad}
+				v, h := c09Junk(cs)
+				js, _ := json.Marshal(cs)
+				c.Eval(nt(true, js))
+				c.AddTransitions(int64(h.Events))
+				c.AddTraces(1)
+				c.State(fw.Hash(h.Digest()))
+				if v != nil {
+					c.Violate(*v)
+					c.Outcome(v.Rule)
+				} else {
+					c.Outcome("victims-intact:junk")
+				}
+				h.Close()
+			}
+		}
+	}
+	c.Family("junk-data-on-dead-stream")
 }
 
 func replayC09(raw json.RawMessage) (string, bool) {
@@ -676,6 +791,18 @@ func replayC09(raw json.RawMessage) (string, bool) {
 	}
 	if err := json.Unmarshal(raw, &r); err != nil {
 		return err.Error(), false
+	}
+	if r.Family == "c09junk" {
+		var rj struct {
+			Case c09JunkCase `json:"case"`
+		}
+		json.Unmarshal(raw, &rj)
+		v, h := c09Junk(rj.Case)
+		defer h.Close()
+		if v != nil {
+			return v.Rule + " [" + v.Shape + "]: " + v.Detail, true
+		}
+		return "victim upload completed", false
 	}
 	if r.Family == "c09timeout" {
 		var rt struct {
